@@ -1,7 +1,7 @@
 (** RFC 3526 group 15: the prime in crypto.py (regenerated into Gen/ModpGroups.v) equals the RFC's closed form. *)
 From Coq Require Import ZArith Reals.
 From Interval Require Import Tactic.
-From Keys Require Import Gen.ModpGroups Rfc3526 PrimeLemmas.
+From Keys Require Import Gen.ModpGroups ModpTable Rfc3526Formula PrimeLemmas.
 Open Scope Z_scope.
 
 Lemma prime_15 : modp_prime 15 = rfc3526_prime 3072 1690314.
